@@ -1,5 +1,7 @@
 // Fixed-capacity model of std::vec::Vec<T: Copy> (only the API the engine uses on move lists).
-pub const VCAP: usize = 256;
+// 64 covers every position the generator harnesses build (<= 4 men: at most 8 + 27 + 27 moves); a larger list fails the
+// capacity assertion (reported, never silently truncated).  Symbolic-index writes cost grows with the capacity.
+pub const VCAP: usize = 64;
 pub struct Vec<T: Copy> { buf: [core::mem::MaybeUninit<T>; VCAP], len: usize }
 impl<T: Copy> Vec<T> {
     pub fn new() -> Self { Self { buf: [core::mem::MaybeUninit::uninit(); VCAP], len: 0 } }
